@@ -773,6 +773,22 @@ func (m *ldMachine) liqSnap() *ldLiqSnap {
 // liqObserve compares the borrows before and after a sweep (block) or a liquidate message.
 func (m *ldMachine) liqObserveLend(i int, op ldOp, pre *ldLiqSnap, sweep bool) {
 	c := m.c
+	if m.prop != "C09" {
+		// safety, liveness and exactness of seizures are C09's assertions; other properties that run these histories
+		// (C10: custody of the resulting auctions) only keep the statistics
+		for _, b := range m.k.GetAllBorrow(c.Ctx) {
+			if was, existed := pre.borrows[b.ID]; b.IsLiquidated && existed && !was.IsLiquidated {
+				m.nSeized++
+				if b.BridgedAssetAmount.Amount.IsPositive() {
+					m.nSeizedX++
+				}
+			}
+		}
+		if a := len(c.App.NewaucKeeper.GetAuctions(c.Ctx)); a < pre.aucs {
+			m.nAucClosed += pre.aucs - a
+		}
+		return
+	}
 	now := m.k.GetAllBorrow(c.Ctx)
 	seizedByDenom := map[string]sdk.Int{}
 	newly := 0
